@@ -550,6 +550,42 @@ func TestC09_Calls(t *testing.T) {
 				_ = pk.EncodeCompressed()
 				_ = sk.Encode()
 				_ = sk.PublicKey()
+			case 29:
+				// at least t+1 valid shares followed by any number of further (valid or hostile) shares: the documentation
+				// accepts more than t+1 pairs; the C layer is handed a flattened buffer and a count, which must agree
+				name = "BLSReconstructThresholdSignature(spare shares)"
+				n := g.Int("n", 2, 8)
+				th := g.Int("t", 1, n-1)
+				sks, _, gpk, err := crypto.BLSThresholdKeyGen(n, th, g.Bytes("tseed", 32, 32))
+				if err != nil {
+					g.Fatalf("BLSThresholdKeyGen: %v", err)
+				}
+				order := g.Perm("signerOrder", n)
+				cnt := g.Int("shares", th+1, n)
+				hh := crypto.NewExpandMsgXOFKMAC128("t")
+				shares := make([]crypto.Signature, cnt)
+				signers := make([]int, cnt)
+				spareHostile := false
+				for i := 0; i < cnt; i++ {
+					signers[i] = order[i]
+					shares[i], _ = sks[order[i]].Sign([]byte("m"), hh)
+					if i > th && g.Chance("spareHostile", 1, 3) {
+						shares[i] = k.hostileSig(g, "spare")
+						spareHostile = true
+					}
+				}
+				g.Journal(fmt.Sprintf("%s(%d, %d, %d shares, signers %v)", name, n, th, cnt, signers))
+				sig, err := crypto.BLSReconstructThresholdSignature(n, th, shares, signers)
+				if err == nil {
+					if ok, verr := gpk.Verify(sig, []byte("m"), hh); !ok || verr != nil {
+						g.Fatalf("BLSReconstructThresholdSignature(n=%d, t=%d, %d shares of which the first t+1 are valid) returned a signature that does not verify under the group key", n, th, cnt)
+					}
+				} else if !spareHostile {
+					g.Fatalf("BLSReconstructThresholdSignature(n=%d, t=%d) with %d valid shares of distinct signers %v failed: %v", n, th, cnt, signers, err)
+				} else if !crypto.IsInvalidSignatureError(err) && !crypto.IsInvalidInputsError(err) {
+					g.Fatalf("BLSReconstructThresholdSignature with a hostile spare share returned an undocumented error class: %v", err)
+				}
+				invalid = spareHostile
 			default:
 				name = "DKG messages"
 				c09DKG(g)
